@@ -402,6 +402,8 @@ def as_sarr(x, dtype=None):
     if isinstance(x, (list, tuple)):
         if any(isinstance(e, (SV, SArr)) for e in x):
             return stack_list(list(x))
+        if len(x) == 0:
+            return from_numpy(np.asarray(x, dtype=np.int64))     # numpy treats an empty list index as an integer index
         return from_numpy(np.asarray(x))
     if isinstance(x, (bool, int, float, np.generic)):
         a = np.asarray(x)
@@ -512,6 +514,11 @@ def adjust_slice(sl, n):
     def clamp(v, lo_neg, hi):
         v = T(v)
         return z3.If(v < 0, Max(v + n, lo_neg), Min(v, hi))
+    if sl.start is None and sl.stop is None:
+        # full extent (dimensions are non negative)
+        a = abs(step)
+        ln = n if a == 1 else (n + (a - 1)) / a
+        return (z3.IntVal(0) if step > 0 else simp(n - 1)), step, simp(ln)
     if step > 0:
         start = z3.IntVal(0) if sl.start is None else clamp(sl.start, 0, n)
         stop = n if sl.stop is None else clamp(sl.stop, 0, n)
@@ -823,7 +830,8 @@ def setitem(a, index, value):
         if c.dtype.kind == "b":
             c = np.flatnonzero(c)
         if c.ndim == 1 and c.size <= 64:
-            ia_c = [int(x) if x >= 0 else None for x in c]
+            nn = conc(n)
+            ia_c = [int(x) if x >= 0 else (int(x) + nn if nn is not None else None) for x in c]
     ia = _int_index_array(raw, n, "assignment index array")
     if ia.ndim != 1:
         raise Unsupported("assignment with n-d index array")
@@ -870,7 +878,11 @@ def setitem(a, index, value):
         if invf is None:
             f = z3.Function(fresh_name("invidx"), z3.IntSort(), z3.IntSort())
             jj = z3.Int(fresh_name("j"))
-            note_fact(z3.ForAll([jj], z3.Implies(z3.And(jj >= 0, jj < mt), f(ias((jj,))) == jj), patterns=[f(ias((jj,)))]))
+            body_ = z3.Implies(z3.And(jj >= 0, jj < mt), f(ias((jj,))) == jj)
+            try:
+                note_fact(z3.ForAll([jj], body_, patterns=[f(ias((jj,)))]))
+            except z3.Z3Exception:
+                note_fact(z3.ForAll([jj], body_))
             invf = lambda x: f(x)   # noqa
 
         def cover(idx):
